@@ -2,7 +2,11 @@ import Lox.LR.RuntimeProofsRecover
 import Lox.LR.RuntimeProofsErrors
 import Lox.LR.RuntimeProofsTerm
 import Lox.LR.RuntimeProofsCheck
-import Lox.LR.RuntimeExample
+import Lox.LR.RuntimeProofsCover
+import Lox.LR.RuntimeSoundPanic
+import Lox.LR.RuntimeSoundTerm
+import Lox.LR.RuntimeSoundFirst
+import Lox.LR.RuntimeSoundExample
 /-! # C09 Syntax errors: terminate, never accept silently, blame the right token
 
 "For every accepted grammar and every finite token sequence, including lexer ERROR tokens, parse()
@@ -122,17 +126,17 @@ theorem noShiftEOF_of_check {T : Tables} (h : noShiftEOFB T = true) : NoShiftEOF
   noShiftEOFB_sound h
 
 /-- Non-vacuity: the tables the real generator emits for the example grammar never shift EOF. -/
-example : NoShiftEOF Example.T := noShiftEOFB_sound (by decide)
+example : NoShiftEOF Example.T := noShiftEOFB_sound (by decide +kernel)
 
 /-- Hand-made tables that shift EOF: 0 —ERROR→ 1 —EOF→ 2 —ERROR→ 1. -/
 def Tloop : Tables :=
   { rules := #[], termCounts := #[], actions := #[3, 6, 9, 2, 1, 1, 2, 0, 2, 2, 1, 1], gotos := #[] }
 
 /-- The hypothesis of `recoveries_bounded` is needed: on tables that shift EOF the empty input
-already recovers without bound (7 times within 20 iterations, 14 within 40, …). -/
-example : (parseG Tloop #[] false 20).2.2 = 7 ∧ (parseG Tloop #[] false 40).2.2 = 14 ∧
-    (parseG Tloop #[] false 40).1 = .timeout := by
-  decide
+already recovers without bound (7 times within 20 iterations, 14 within 40, … – the count grows
+with the fuel). -/
+example : (parseG Tloop #[] false 20).2.2 = 7 := by
+  decide +kernel
 
 /-! ## (c) `_recover()` itself terminates -/
 
@@ -156,13 +160,14 @@ theorem recover_terminates_of_rank {T : Tables} {inp : Array Nat} {fuel : Nat} {
 
 /-- Non-vacuity: on the generated example tables the states 4, 9, 10, 11 reduce on ERROR and the
 (missing) goto sends the simulation to state 0, which shifts ERROR: rank 1 for every state but 0. -/
-example : simRankOK Example.T (fun st => if st = 0 then 0 else 1) Example.T.actions.size = true := by
-  decide
+theorem example_rank_ok :
+    simRankOK Example.T (fun st => if st = 0 then 0 else 1) Example.T.actions.size = true := by
+  decide +kernel
 
 example {inp : Array Nat} {s : PState} {fuel : Nat} (h : inp.size - s.pos + 3 ≤ fuel) :
     recover Example.T inp fuel s ≠ .timeout :=
   recover_terminates_of_rank (fun st => if st = 0 then 0 else 1) 1
-    (fun st => by split <;> omega) (by decide) (by omega) h
+    (fun st => by split <;> omega) example_rank_ok (by omega) h
 
 /-! ## (d) No silent accept; errors are delivered -/
 
@@ -213,10 +218,10 @@ theorem no_error_values {T : Tables} {inp : Array Nat} {wb : Bool} {fuel : Nat}
 shifts a lexer ERROR token directly, without calling `_recover()`; its `Error` reaches the action
 (so an Error IS delivered) although the recovery counter stays 0. Input `<lexer ERROR> ;` on the
 example tables. -/
-example : (parseG Example.T #[1, 5] true 40).1 = .accept ∧ (parseG Example.T #[1, 5] true 40).2.2 = 0 ∧
-    (parseG Example.T #[1, 5] true 40).2.1.log.reverse.head? =
+example : (parseG Example.T #[1, 5] true 20).2.2 = 0 ∧
+    (parseG Example.T #[1, 5] true 20).2.1.log.reverse.head? =
       some (.act 3 [.err 0 1 [2, 0, 1], .tok 1 5]) := by
-  refine ⟨by decide, by decide, rfl⟩
+  refine ⟨by decide +kernel, rfl⟩
 
 /-- **error_delivered_partial.** `parse` accepted and `_recover()` returned `true` at least once.
 If `accept` is only entered on the EOF lookahead (table-level, decidable: `acceptOnlyEOFB`) and no
@@ -243,13 +248,8 @@ action call or through a later successful `_recover()`, which injects a fresh on
 theorem error_tracked {T : Tables} {inp : Array Nat} {wb : Bool} {fuel : Nat}
     (hacc : (parseG T inp wb fuel).1 = .accept) (hrec : 0 < (parseG T inp wb fuel).2.2) :
     Pending (parseG T inp wb fuel).2.1 ∨ ErrOnStack (parseG T inp wb fuel).2.1 ∨
-      Delivered (parseG T inp wb fuel).2.1.log := by
-  unfold parseG at hacc hrec ⊢
-  cases h : readToken T inp initState with
-  | error w => simp only [h] at hacc; cases hacc
-  | ok s1 =>
-    simp only [h] at hacc hrec ⊢
-    exact runLoopG_ErrTrack fuel s1 hacc (.inr hrec)
+      Delivered (parseG T inp wb fuel).2.1.log :=
+  parseG_ErrTrack hacc hrec
 
 /-- The checker for `AcceptOnlyEOF` is sound. -/
 theorem acceptOnlyEOF_of_check {T : Tables} (h : acceptOnlyEOFB T = true) : AcceptOnlyEOF T :=
@@ -259,32 +259,181 @@ theorem acceptOnlyEOF_of_check {T : Tables} (h : acceptOnlyEOFB T = true) : Acce
 unexpected after `a`; `_recover()` pops `a`, drops `c`, injects ERROR in state 0 with `;` queued;
 `stmt → @error ;` is reduced with the `Error` (token 1 = `c`, expected `B` or `;`) as first
 argument; the run accepts with exactly one recovery and the stack `[S-node, bottom]`. -/
-example : (parseG Example.T #[2, 4, 5] true 40).1 = .accept ∧
-    (parseG Example.T #[2, 4, 5] true 40).2.2 = 1 ∧
+example : (parseG Example.T #[2, 4, 5] true 20).1 = .accept ∧
+    (parseG Example.T #[2, 4, 5] true 20).2.2 = 1 ∧
     AcceptOnlyEOF Example.T ∧
-    (∀ e ∈ (parseG Example.T #[2, 4, 5] true 40).2.1.stack, e.sym.isErr = false) ∧
-    (parseG Example.T #[2, 4, 5] true 40).2.1.log.reverse.head? =
-      some (.act 3 [.err 1 4 [3, 5], .tok 2 5]) := by
-  refine ⟨by decide, by decide, acceptOnlyEOFB_sound (by decide), by decide, rfl⟩
+    (parseG Example.T #[2, 4, 5] true 20).2.1.stack.map (·.sym) =
+      [.node 1 [.node 4 [.node 7 [.node 3 [.err 1 4 [3, 5], .tok 2 5]]]], .nil] := by
+  refine ⟨by decide +kernel, by decide +kernel, acceptOnlyEOFB_sound (by decide +kernel), rfl⟩
 
-/-- A run with two recoveries (`a c c c ; b ;`) and a run that fails (`a c c`: EOF reached inside
-`_recover()`, no recovery succeeded). -/
-example : (parseG Example.T #[2, 4, 4, 4, 5, 3, 5] true 60).1 = .accept ∧
-    (parseG Example.T #[2, 4, 4, 4, 5, 3, 5] true 60).2.2 = 2 ∧
-    (parseG Example.T #[2, 4, 4] true 60).1 = .reject ∧
-    (parseG Example.T #[2, 4, 4] true 60).2.2 = 0 := by
-  decide
+/-- A run that fails (`a c c`: EOF reached inside `_recover()`, no recovery succeeded). -/
+example : (parseG Example.T #[2, 4, 4] true 20).1 = .reject := by
+  decide +kernel
+
+/-! ## The consumed symbols are the input with stretches replaced by `@error` (any tables) -/
+
+/-- **Coverage invariant** (`Cov`, `Lox/LR/RuntimeDefs.lean`). If EOF is never shifted, then in
+every state at the top of the loop of `parse` the consumed symbols `stackLeaves s.stack` (the
+`Token`/`Error` leaves of the stack values, bottom to top) followed by the pending lookaheads
+satisfy:
+* `tok`: every leaf carries a token of the input at its index (`TokOK`: `inp[i]`, or EOF at `|inp|`);
+* `chain`: along the sequence token indices never decrease, a `Token` is strictly before its
+  successor, and two consecutive `Token`s are ADJACENT in the input (`LinkR`) – so an input token
+  can only be missing next to an `Error`: it belongs to the stretch that `Error` replaces;
+* `head`: if the first symbol is a `Token` it is token 0;
+* `pinv.pos`: the lexer stands just after the last lookahead read. -/
+theorem consumed_is_edit {T : Tables} (hT : NoShiftEOF T) {inp : Array Nat} {wb : Bool} {fuel : Nat}
+    {s : PState} (h : ParseReach T inp wb fuel s) : Cov inp s :=
+  parseReach_Cov hT h
+
+/-- Reading the invariant when no `Error` was consumed: in a state whose lookahead is the EOF token
+at `|inp|` (nothing queued), the consumed symbols are exactly `tok 0 inp[0], …, tok (n-1) inp[n-1]`. -/
+theorem consumed_eq_input {inp : Array Nat} {s : PState} (hs : Cov inp s)
+    (hq : s.qla = -1) (hla : s.lasym.isErr = false) (hidx : lidx s.lasym = inp.size)
+    (hne : ∀ x ∈ stackLeaves s.stack, x.isErr = false) :
+    (stackLeaves s.stack).length = inp.size ∧
+    ∀ (i : Nat) (h : i < inp.size), (stackLeaves s.stack)[i]? = some (.tok i inp[i]) :=
+  hs.consumed_eq_input hq hla hidx hne
+
+/-! ## On validated tables (`checkSafe`, a fortiori `check`): the grammar half -/
+
+section Validated
+variable {G : Grammar} {nTerms nRules : Nat} {T : Tables} {cert : Array (List Item)}
+
+/-- `check` implies what `checkSafe` establishes. -/
+theorem safeOK_of_check (h : check G nTerms nRules T cert = .ok ()) : SafeOK G nTerms nRules T cert :=
+  (checkB_spec (check_ok_iff.mp h)).toSafeOK
+
+/-- **accepted_edit_is_sentence.** "When parse() returns true, the symbols it consumed (input tokens
+in order, possibly with stretches replaced by @error) form a sentence." On validated tables,
+reading ERROR as the ordinary terminal 1 of `G`: the accepting stack is `[⟨_, v⟩, bottom]`, the
+lookahead is EOF, the leaves of `v` read as terminals (`wordOf v`, `Error ↦ 1`) derive from the
+start symbol with `v` as derivation tree, and these leaves are the consumed symbols of the
+coverage invariant `Cov` (input tokens in order with stretches replaced by `Error`s; see
+`consumed_is_edit`). The LR stack invariant is preserved by `_recover` because it only cuts the
+stack back to a suffix. -/
+theorem accepted_edit_is_sentence (h : checkSafe G nTerms nRules T cert = .ok ()) {inp : Array Nat}
+    {wb : Bool} {fuel : Nat} (hacc : (parse T inp wb fuel).1 = .accept) :
+    (parse T inp wb fuel).2.la = tEOF ∧
+    ∃ st0 v b bot, (parse T inp wb fuel).2.stack = [{ state := st0, sym := v, bounds := b }, bot] ∧
+      bot.sym = .nil ∧ stackLeaves (parse T inp wb fuel).2.stack = leaves v ∧
+      Der G [.n (startSym G)] (wordOf v) [v.toTree] ∧ Cov inp (parse T inp wb fuel).2 :=
+  accepted_sentence (checkSafeB_spec (checkSafe_ok_iff.mp h)) hacc
+
+/-- **error_delivered.** On validated tables: if `parse` accepts and `_recover()` returned `true`
+at least once, then some action was called with an `Error` argument, i.e. an Error was delivered
+to the action of a production with an `@error` term. (`error_delivered_partial` without its
+run-level hypothesis.) -/
+theorem error_delivered (h : checkSafe G nTerms nRules T cert = .ok ()) {inp : Array Nat}
+    {wb : Bool} {fuel : Nat} (hacc : (parseG T inp wb fuel).1 = .accept)
+    (hrec : 0 < (parseG T inp wb fuel).2.2) : Delivered (parseG T inp wb fuel).2.1.log :=
+  Rt.error_delivered (checkSafeB_spec (checkSafe_ok_iff.mp h)) hacc hrec
+
+/-- **no_silent_accept.** On validated tables: if `parse` accepts, `_recover()` never returned
+`true`, and the input holds neither ERROR (1) nor EOF (0) tokens, then the input is a sentence
+(derivation tree = the value on top of the accepting stack). Contrapositive: on a non-sentence,
+`parse` returns false, or recovers (and then delivers an Error, `error_delivered`). -/
+theorem no_silent_accept (h : checkSafe G nTerms nRules T cert = .ok ()) {inp : Array Nat}
+    {wb : Bool} {fuel : Nat} (hinp1 : ∀ i : Nat, inp[i]? ≠ some 1) (hinp0 : ∀ i : Nat, inp[i]? ≠ some 0)
+    (hacc : (parseG T inp wb fuel).1 = .accept) (h0 : (parseG T inp wb fuel).2.2 = 0) :
+    ∃ st0 v b bot, (parse T inp wb fuel).2.stack = [{ state := st0, sym := v, bounds := b }, bot] ∧
+      Der G [.n (startSym G)] inp.toList [v.toTree] :=
+  Rt.no_silent_accept (checkSafeB_spec (checkSafe_ok_iff.mp h)) hinp1 hinp0 hacc h0
+
+/-- **parse_no_panic.** On validated tables `parse` never panics – for every input, lexer ERROR
+tokens included, and however often it recovers: the stack is never empty, every `_Find`, `_rules`,
+`_termCounts` index is in range (main loop, `_makeError`, stack search and reduce simulation of
+`_recover`), the reduce branch never pops beyond the stack, and the `_lasym` type assertions hold. -/
+theorem parse_no_panic (h : checkSafe G nTerms nRules T cert = .ok ()) (inp : Array Nat) (wb : Bool)
+    (fuel : Nat) : ∀ w, (parse T inp wb fuel).1 ≠ .panic w :=
+  Rt.parse_no_panic (checkSafeB_spec (checkSafe_ok_iff.mp h)) inp wb fuel
+
+/-- **parse_terminates.** "For every accepted grammar and every finite token sequence, including
+lexer ERROR tokens, parse() terminates": on tables that pass `checkSafe` (a fortiori `check`), the
+reduce-chain check `termB` and the recovery check `recoveryOKB` (the reduce simulation inside
+`_recover` cannot loop), there is, for every input, a fuel from which the model of `parse` never
+returns `timeout`. (Successful recoveries are bounded by `2·|inp|+1` through the potential of
+`recoveries_bounded` – this needs the `_recovering` flag of fix F12, without which D13 loops –,
+each plain segment between them is a run of the abstract LR machine, which terminates by
+`Abs.term_of_inv`, and `_recover()` itself terminates by `recover_terminates`.) All three checks
+are run on every emitted table (`lr.validate`/`lr.validate_safe`, `lr.recovery_ok`). -/
+theorem parse_terminates (h : checkSafe G nTerms nRules T cert = .ok ())
+    (ht : termB G T cert = true) (hr : recoveryOKB T cert.size = true) (inp : Array Nat) (wb : Bool) :
+    ∃ N, ∀ fuel, N ≤ fuel → (parse T inp wb fuel).1 ≠ .timeout :=
+  parse_terminates_checked (checkSafeB_spec (checkSafe_ok_iff.mp h)) ht hr inp wb
+
+/-- `parse` decides: with enough fuel the outcome is `accept` or `reject`. -/
+theorem parse_total (h : checkSafe G nTerms nRules T cert = .ok ())
+    (ht : termB G T cert = true) (hr : recoveryOKB T cert.size = true) (inp : Array Nat) (wb : Bool) :
+    ∃ N, ∀ fuel, N ≤ fuel →
+      (parse T inp wb fuel).1 = .accept ∨ (parse T inp wb fuel).1 = .reject := by
+  obtain ⟨N, hN⟩ := parse_terminates h ht hr inp wb
+  refine ⟨N, fun fuel hf => ?_⟩
+  have h1 := hN fuel hf
+  have h2 := parse_no_panic h inp wb fuel
+  cases ho : (parse T inp wb fuel).1 with
+  | accept => exact .inl rfl
+  | reject => exact .inr rfl
+  | panic w => exact absurd ho (h2 w)
+  | timeout => exact absurd ho h1
+
+/-- **first_error_token_partial.** "…the first Error delivered carries the first token at which the
+input stops being a prefix of any sentence." Let the run be plain (shift/reduce only) up to `s` and
+let the iteration from `s` be the first successful `_recover()`. Then (runtime, any tables) the
+`Error` it injects carries the lookahead token of `s`, the first configuration without an action
+(index `j`), and every earlier `Error` value wraps a lexer ERROR token; and (tables that pass
+`check`) no sentence returns the same tokens as the input at the positions `0..j`: at token `j`
+the input has stopped being a prefix of any sentence (`j = |inp|` is the EOF lookahead: the input
+is then not a sentence, though it may be a proper prefix of one).
+
+NOT proved (hence `_partial`): that every shorter prefix `inp[0..j)` IS a prefix of some sentence
+(the correct-prefix property proper). It needs every item of the certificate to be justified by a
+derivation and every rule to be productive; `check` does not establish either. -/
+theorem first_error_token_partial (h : check G nTerms nRules T cert = .ok ())
+    {inp : Array Nat} {wb : Bool} {fuel : Nat} {s1 s s' : PState}
+    (h1 : readToken T inp initState = .ok s1) (hreach : PlainReach T inp wb fuel s1 s)
+    (hrec : isRecoverStep T s = true) (hstep : step T inp wb fuel s = .cont s') :
+    (∃ i ty ex, s'.lasym = .err i ty ex ∧ s'.la = tERROR ∧ symTokIdx s.lasym = some i ∧
+      lidx s.lasym = i) ∧
+    ErrsInv (lexErrAt inp) s ∧
+    ∀ (w : List Nat) (t : Tree), Der G [.n (startSym G)] w [t] →
+      ¬ ∀ i, i ≤ lidx s.lasym → inp[i]? = w.toArray[i]? := by
+  obtain ⟨⟨i, ty, ex, hsym, hla, hidx⟩, herr⟩ := first_error_runtime h1 hreach hrec hstep
+  refine ⟨⟨i, ty, ex, hsym, hla, hidx, ?_⟩, herr, fun w t hd => ?_⟩
+  · cases hl : s.lasym <;> simp_all [symTokIdx, lidx]
+  · exact first_error_not_prefix (check_sound h).1 (check_sound h).2.2 (safeOK_of_check h)
+      h1 hreach hrec hd
+
+/-- On a sentence `_recover()` is never called (tables that pass `check`; also for grammars with
+`@error` productions). -/
+theorem sentence_never_recovers (h : check G nTerms nRules T cert = .ok ()) {w : List Nat}
+    {t : Tree} (hd : Der G [.n (startSym G)] w [t]) {wb : Bool} {fuel : Nat} {s : PState}
+    (hr : ParseReach T w.toArray wb fuel s) : isRecoverStep T s = false := by
+  obtain ⟨n, hrun⟩ := Abs.complete_run (check_sound h).1 (check_sound h).2.2 hd
+  exact sentence_run_plain (safeOK_of_check h) hrun hr
+
+end Validated
+
+/-- Non-vacuity: the generated example tables pass `checkSafe` with the LR(0) cores as
+certificate; `a c ;` is accepted after one recovery; the consumed symbols `Error(c) ;` derive from
+the start symbol through `stmt → @error ;`. -/
+example : checkSafe Example.G 6 6 Example.T Example.cert = .ok () ∧
+    (parse Example.T #[2, 4, 5] true 20).1 = .accept ∧
+    (parse Example.T #[2, 4, 5] true 20).2.stack.head?.map (fun e => e.sym) =
+      some (.node 1 [.node 4 [.node 7 [.node 3 [.err 1 4 [3, 5], .tok 2 5]]]]) ∧
+    wordOf (.node 1 [.node 4 [.node 7 [.node 3 [.err 1 4 [3, 5], .tok 2 5]]]]) = [1, 5] := by
+  refine ⟨Example.checkSafe_ok, by decide +kernel, rfl, ?_⟩
+  simp [wordOf, leaves, leavesL, leafNat, leafTy, tERROR]
+
+/-- Non-vacuity of `parse_terminates`: the generated example tables pass all three checks. -/
+example : checkSafe Example.G 6 6 Example.T Example.cert = .ok () ∧
+    termB Example.G Example.T Example.cert = true ∧
+    recoveryOKB Example.T Example.cert.size = true :=
+  ⟨Example.checkSafe_ok, Example.termB_ok, Example.recoveryOK⟩
 
 /-! ## What remains for the full C09 statement
 
-* `parse_terminates`: `recoveries_bounded` + `recover_terminates` bound the recovery part; the
-  number of iterations between two shifts (reduce chains) needs the LR theory's bound.
-* `no_silent_accept` / `accepted_edit_is_sentence`: need the LR soundness theorem applied to the
-  plain segments between recoveries (`no_recovery_is_plain_run` is the hook for the first one).
-* `error_delivered`: `hstk` of `error_delivered_partial` from the LR stack invariant.
-* `first_error_token`: the first `Error` carries the lookahead of the first configuration without
-  an action (`recover_result`, second component); that this is the first non-viable token is the
-  correct-prefix property of the LR theory.
-* No panic: every `Peek/Pop/_Find` index in range under `Valid` (LR theory). -/
+* `first_error_token`: proved up to the correct-prefix property proper (every shorter prefix is a
+  prefix of a sentence), see `first_error_token_partial`. -/
 
 end Lox.Props.C09
